@@ -319,10 +319,23 @@ class Slices(Relation):
             return
         a = tuple(spec['a'])
         n = n_nt = 0
+        # the box and - in the same process, with the same image shape - the
+        # boxes that differ from it by one in a single corner: an answer must
+        # not depend on which boxes were asked about before
+        family = [a]
+        for k in range(4):
+            for d in (-1, 1):
+                b = list(a)
+                b[k] += d
+                if b[0] <= b[1] and b[2] <= b[3]:
+                    family.append(tuple(b))
         for ny in range(spec['smax'] + 1):
             for nx in range(spec['smax'] + 1):
                 n += 1
                 n_nt += bool(check_slices(ctx, a, (ny, nx)))
+                for b in family[1:]:
+                    check_slices(ctx, b, (ny, nx))
+                check_slices(ctx, a, (ny, nx))
         ctx.add_enumerated(n, n_nt, {'kind': 'slices', 'a': list(a),
                                      'shape': [spec['smax'], 1]})
         ctx.evaluations -= 1
